@@ -1,9 +1,11 @@
-------------------------------- MODULE MC_RRT -------------------------------
-EXTENDS RRT, Json, MCCommon
+----------------------------- MODULE MC_RRTStar -----------------------------
+EXTENDS RRTStar, Json, MCCommon
+
+MC_RewireStrict == EnvBool("V_REWIRE_STRICT", TRUE)
 
 Emit ==
   (MC_Emit /\ pc' = "idle" /\ res'.kind # "none" /\ (pc = "loop" \/ ncalls' # ncalls)) =>
-     PrintT(<<"HIST", ToJson([planner |-> "rrt", topo |-> MC_T, maxd |-> MC_MaxDist, rad2 |-> 0, lvs |-> MC_Lvs,
+     PrintT(<<"HIST", ToJson([planner |-> "rrtstar", topo |-> MC_T, maxd |-> MC_MaxDist, rad2 |-> MC_Rad2, lvs |-> MC_Lvs,
                              bias |-> MC_Bias, seeded |-> MC_Seeded, valid |-> valid, probs |-> probs,
                              calls |-> hist'])>>)
 =============================================================================
